@@ -108,13 +108,27 @@ Section EntityJson.
   (* encoding/json matches struct field names case-insensitively; an object ANYWHERE in the document with a key that is one of the
      field names only up to case (they could be struct members of the entity or of the value escapes) is outside the model *)
   Definition all_fields : list string := ["uid"; "parents"; "attrs"; "tags"; "type"; "id"; "__entity"; "__extn"; "fn"; "arg"]%string.
+  (* the letters with a non-ASCII character in their simple case-folding orbit: long s (C5 BF), Kelvin sign (E2 84 AA), dotted capital I
+     and dotless i (C4 B0, C4 B1); a key containing one of them may match a field name in ways the model does not compute *)
+  Fixpoint has_special (key : str) : bool :=
+    match key with
+    | 197 :: ((191 :: _) as r) => true
+    | 196 :: ((176 :: _) as r) => true
+    | 196 :: ((177 :: _) as r) => true
+    | 226 :: ((132 :: 170 :: _) as r) => true
+    | _ :: r => has_special r
+    | [] => false
+    end.
+  Definition fold_only (names : list string) (l : list (str * json)) : bool :=
+    existsb (fun kv : str * json => negb (existsb (fun n => str_eqb (k n) (fst kv)) names) &&
+                                     (existsb (fun n => fold_eq (k n) (fst kv)) names || has_special (fst kv))) l.
   Fixpoint any_fold (fuel : nat) (j : json) : bool :=
     match fuel with
     | O => true
     | S f =>
       match j with
       | JArr l => existsb (any_fold f) l
-      | JObj l => members_fold_only all_fields l || existsb (fun kv : str * json => any_fold f (snd kv)) l
+      | JObj l => fold_only all_fields l || existsb (fun kv : str * json => any_fold f (snd kv)) l
       | _ => false
       end
     end.
